@@ -32,7 +32,9 @@ def generate(seed, tier="quick"):
         op["kw"] = sampling.gen_iterative_kw(rnd, N, pname, logprobs=0.0)
         sampling.add_arg_types(rnd, op)
         ops.append(op)
-    return {"format": 1, "property": PROPERTY, "seed": seed, "config": cfg, "ops": ops, "schedule": None, "faults": []}
+    prog = {"format": 1, "property": PROPERTY, "seed": seed, "config": cfg, "ops": ops, "schedule": None, "faults": []}
+    sampling.add_concurrent(rnd, prog)
+    return prog
 
 
 def judge_iterative(dep, rec, L, prop, probes):
@@ -197,4 +199,5 @@ def evaluate(dep, program):
             v.append(Violation("C14", "C14.input-modified", "C14:library-object-modified-in-place-by-a-call", "library %d: column(s) %s of the user's JokerSamples object no longer hold what was put there; later calls see another library" % (li, bad)))
     if program["config"].get("ll_override"):
         probes["runs_with_neg_inf_profile_stub(kernel output overridden)"] = 1
+    v += sampling.check_concurrent(dep, "C14", probes)
     return v, probes
